@@ -436,6 +436,26 @@ fn c01_k1_pawn_pushes_complete_black() {
     pawn_obligation_on(2, Half::Complete, true, Color::Black)
 }
 
+macro_rules! k1_harness {
+    ($name:ident, $unwind:expr, $pawns:expr, $half:expr) => {
+        #[kani::proof]
+        #[kani::unwind($unwind)]
+        #[kani::stub(crate::moves::Move::by_moving, crate::moves::verif_c20::contract_by_moving)]
+        #[kani::stub(crate::moves::Move::by_capturing, crate::moves::verif_c20::contract_by_capturing)]
+        #[kani::stub(crate::moves::Move::by_promoting, crate::moves::verif_c20::contract_by_promoting)]
+        #[kani::stub(crate::moves::Move::by_capture_promoting, crate::moves::verif_c20::contract_by_capture_promoting)]
+        #[kani::stub(crate::moves::Move::by_en_passant, crate::moves::verif_c20::contract_by_en_passant)]
+        fn $name() {
+            pawn_obligation($pawns, $half)
+        }
+    };
+}
+// K1 against the CONTRACTS of the five Move constructors (C20) instead of their bodies
+k1_harness!(c01_k1_pawn_moves_sound, 8, 1, Half::Sound);
+k1_harness!(c01_k1_pawn_moves_complete, 8, 1, Half::Complete);
+k1_harness!(c01_k1_pawn_moves_sound_3, 8, 3, Half::Sound);
+k1_harness!(c01_k1_pawn_moves_complete_2, 10, 2, Half::Complete);
+
 #[kani::proof]
 #[kani::unwind(8)]
 fn c01_k1_pawn_moves_sound_1() {
@@ -456,7 +476,7 @@ fn c01_k1_pawn_moves_sound_2() {
 
 #[kani::proof]
 #[kani::unwind(10)]
-fn c01_k1_pawn_moves_complete_2() {
+fn c01_k1_pawn_moves_complete_2_unstubbed() {
     pawn_obligation(2, Half::Complete)
 }
 
